@@ -100,6 +100,10 @@ class DatReader(TableReaderBase):
         continue
       (x,y) = splitre.split(line)[:2]
 
-      results.append( (float(x), float(y) ))
+      x = float(x)
+      if x != x:
+        # the rows are sorted on x: a nan among them would leave them in no order at all
+        raise ValueError("x value of a table row is not a number: '{}'".format(line))
+      results.append( (x, float(y) ))
     results.sort()
     self.extend(results)
